@@ -188,7 +188,7 @@ def parse_template(text, unit):
             spec = s[len("//@" + kind):].strip()
             tags = []
             m = re.search(r"\[([^\]]*)\]\s*$", spec)
-            if m and kind == "fn" and re.fullmatch(r"[A-Za-z0-9_,\-? ]*", m.group(1)):
+            if m and kind == "fn" and re.fullmatch(r"[A-Za-z0-9_,\-? =/.:]*", m.group(1)) and re.match(r"\s*(C\d+|\?)", m.group(1)):
                 tags = [x.strip() for x in m.group(1).split(",") if x.strip()]
                 spec = spec[:m.start()].strip()
             parts = [p.strip() for p in spec.split("::")]
@@ -330,7 +330,22 @@ def compose(template_text, unit, canary=None, canary_loop=None):
                 out.log.append(f"{where}: override absent - trait default applies")
                 emit(f"// [{d['path'][-1]} is not overridden in the working tree: the trait's default method applies]\n")
                 continue
-            raise ExtractionError(f"{where}: {r.get('error')}")
+            # `?default=<file> :: trait X :: fn f`: when the override no longer exists, the trait's default BODY (read from the working tree)
+            # is what runs for this type; it is verified in its place against the same contract
+            dflt = next((t for t in d.get("tags", []) if t.startswith("?default=")), None)
+            if kind == "fn" and dflt and re.search(r"fn \w+: 0 matches", r.get("error", "")):
+                sel = [x.strip() for x in dflt[len("?default="):].split("::") if x.strip()]
+                # re-join `a :: b` pieces that belong to one selector (`impl A for B` has no `::` inside here)
+                req2 = dict(next(q for q in reqs if q["id"] == str(k)), file=resolve_file(sel[0]), path=sel[1:])
+                r2 = run_extract([req2])[str(k)]
+                if not r2.get("ok"):
+                    raise ExtractionError(f"{where}: override absent and the trait default could not be read: {r2.get('error')}")
+                r2["log"].append(f"override absent in the working tree: the trait's default body ({' :: '.join(sel)}) is verified in its place")
+                out.log.append(f"{where}: override absent - trait default body verified in its place")
+                r = r2
+                r["sig_unchecked"] = True      # the default is declared with the trait's own spelling of the types
+            else:
+                raise ExtractionError(f"{where}: {r.get('error')}")
         if kind == "item":
             out.items.append({"file": d["file"], "path": d["path"], "log": r["log"]})
             emit(r["text"] + "\n")
@@ -341,7 +356,7 @@ def compose(template_text, unit, canary=None, canary_loop=None):
             csig = re.sub(r"->.*$", "", vsig.strip(), flags=re.S)
             r["log"].append("R9:return type added to carry the panic outcome")
         body = r["body"]
-        if norm_sig(csig) != norm_sig(r["sig"]):
+        if not r.get("sig_unchecked") and norm_sig(csig) != norm_sig(r["sig"]):
             # R1c: parameters that were only RENAMED in the working tree keep their contract-side names in the header (the contract is
             # written over them) and are re-bound under the new names at the head of the body
             ren = renamed_params(csig, r["sig"])
